@@ -7,6 +7,13 @@ R02.2 the large-offset threshold agrees: writer switches at 2**31 and stores 2**
       & 2**31, masks with 2**31 - 1, scales by 8 and reads >Q.  v1 refuses offsets > 0xFFFFFFFF.
 R02.3 trailer: writers end with pack checksum then running digest; readers slice with the digest width;
       Pack.data never hands out (or keeps) data before check_length_and_checksum passed.
+R02.4 object-header codec: pack_object_header's bit fields (type << 4 | size & 15, then 7-bit groups with 0x80
+      continuation) are the ones _decode_object_header / take_msb_bytes(_at) take apart; the OFS_DELTA offset
+      varint encoder and decoder are both git's offset encoding (msb first, bias one) and offset 0 is refused.
+R02.5 OFS_DELTA direction: the writer stores `own offset - base offset` for a base it has already written
+      (PackChunkGenerator.entries hit), every reader computes `own offset - delta`; entries[sha] is recorded with
+      the offset *before* it is advanced, and every yielded chunk enters the crc32, the trailer digest and the
+      offset.
 """
 from __future__ import annotations
 
@@ -259,6 +266,190 @@ def run(prog: Program, rep, tier="quick"):
     src = norm(cl.node, 10000)
     rep.ob("R02.3", PACK, cl.qual, "index length and stored pack checksum are compared with the data's",
            "len(self.index) == len(self.data)" in src and "get_pack_checksum()" in src and "get_stored_checksum()" in src and "ChecksumMismatch" in src, "", cl.node.lineno)
+    r02_4(prog, rep, m, F, fn)
+    r02_5(prog, rep, m, F, fn)
     rep.floor("R02.1", 18)
     rep.floor("R02.2", 5)
     rep.floor("R02.3", 8)
+    rep.floor("R02.4", 9)
+    rep.floor("R02.5", 8)
+
+
+def _binops(node, op):
+    return [x for x in ast.walk(node) if isinstance(x, ast.BinOp) and isinstance(x.op, op)]
+
+
+def r02_4(prog, rep, m, F, fn):
+    rep.rule("R02.4", "TABLE-AGREE: object header bit fields and the OFS_DELTA offset varint agree between pack_object_header and the decoders")
+    w = fn("pack_object_header")
+    # writer: first byte
+    first = [x for x in _binops(w.node, ast.BitOr) if isinstance(x.left, ast.BinOp) and isinstance(x.left.op, ast.LShift) and "type" in norm(x.left.left)]
+    w_type_shift = F.try_fold(first[0].left.right) if first else None
+    w_low_mask = F.try_fold(first[0].right.right) if first and isinstance(first[0].right, ast.BinOp) and isinstance(first[0].right.op, ast.BitAnd) else None
+    # statements before the OFS branch only (the size loop)
+    size_part = [s for s in w.node.body if not (isinstance(s, ast.If) and "OFS_DELTA" in norm(s.test))]
+    shifts = [F.try_fold(s.value) for st in size_part for s in ast.walk(st) if isinstance(s, ast.AugAssign) and isinstance(s.op, ast.RShift) and norm(s.target) == "size"]
+    masks = [F.try_fold(x.right) for st in size_part for x in _binops(st, ast.BitAnd) if norm(x.left) == "size"]
+    conts = [F.try_fold(x.right) for st in size_part for x in _binops(st, ast.BitOr) if isinstance(x.right, ast.Constant)]
+    rep.ob("R02.4", PACK, w.qual, "writer: first byte = type << 4 | size & 15, then size >>= 4, groups size & 0x7F with size >>= 7, continuation 0x80",
+           w_type_shift == 4 and w_low_mask == 15 and shifts == [4, 7] and sorted(masks) == [15, 127] and conts == [0x80],
+           f"type shift {w_type_shift}, low mask {w_low_mask}, size shifts {shifts}, masks {masks}, continuation {conts}", w.node.lineno)
+    r = fn("_decode_object_header")
+    t = [x for x in _binops(r.node, ast.BitAnd) if isinstance(x.left, ast.BinOp) and isinstance(x.left.op, ast.RShift)]
+    r_type_shift = F.try_fold(t[0].left.right) if t else None
+    r_type_mask = F.try_fold(t[0].right) if t else None
+    lows = [F.try_fold(x.right) for x in _binops(r.node, ast.BitAnd) if norm(x.left).endswith("[0]")]
+    grp = [x for x in _binops(r.node, ast.LShift) if isinstance(x.left, ast.BinOp) and isinstance(x.left.op, ast.BitAnd)]
+    g_mask = F.try_fold(grp[0].left.right) if grp else None
+    # shift expression must be linear i*7 + 4
+    lin = None
+    if grp:
+        e = grp[0].right
+        mul = [F.try_fold(y.right) if isinstance(y.right, ast.Constant) else F.try_fold(y.left) for y in _binops(e, ast.Mult)]
+        add = [F.try_fold(y.right) for y in _binops(e, ast.Add)]
+        lin = (mul[0] if mul else None, add[0] if add else None)
+    starts_at_1 = any(isinstance(x, ast.Subscript) and isinstance(x.slice, ast.Slice) and F.try_fold(x.slice.lower) == 1 and x.slice.upper is None for x in ast.walk(r.node))
+    rep.ob("R02.4", PACK, r.qual, "reader: type = (b0 >> 4) & 7, size = b0 & 15 + sum((b & 0x7F) << (7*i + 4)) over the bytes after the first",
+           r_type_shift == 4 and r_type_mask == 7 and lows == [15] and g_mask == 127 and lin == (7, 4) and starts_at_1,
+           f"type shift {r_type_shift} mask {r_type_mask}, low {lows}, group mask {g_mask}, shift form {lin}, raw[1:] {starts_at_1}", r.node.lineno)
+    rep.ob("R02.4", PACK, "pack_object_header / _decode_object_header", "writer and reader agree on type shift, low-size width and group width",
+           w_type_shift == r_type_shift and w_low_mask == (lows[0] if lows else None) and shifts[1:] == [lin[0] if lin else None] and (shifts[:1] == [lin[1] if lin else None]),
+           f"writer ({w_type_shift},{w_low_mask},{shifts}) reader ({r_type_shift},{lows},{lin})", w.node.lineno)
+    types = sorted(v for k, v in ((k, F.try_fold(ast.Name(id=k, ctx=ast.Load()))) for k in ("OFS_DELTA", "REF_DELTA")) if isinstance(v, int))
+    rep.ob("R02.4", PACK, r.qual, "the type mask keeps every pack type number (1..7) and OFS_DELTA/REF_DELTA are 6 and 7", r_type_mask == 7 and types == [6, 7],
+           f"mask {r_type_mask}, delta types {types}", r.node.lineno)
+    for name in ("take_msb_bytes", "take_msb_bytes_at"):
+        f = fn(name)
+        loops = [x for x in ast.walk(f.node) if isinstance(x, ast.While)]
+        ok = len(loops) == 1 and any(F.try_fold(b.right) == 0x80 and norm(b.left).endswith("[-1]") for b in _binops(loops[0].test, ast.BitAnd)) \
+            and "len(ret) == 0" in norm(loops[0].test)
+        rep.ob("R02.4", PACK, f.qual, "header bytes are taken while the last byte has the writer's continuation bit 0x80 (at least one)", ok,
+               norm(loops[0].test) if loops else "no loop", f.node.lineno)
+    for name in ("unpack_object", "unpack_object_at"):
+        f = fn(name)
+        src = norm(f.node, 100000)
+        br = [x for x in ast.walk(f.node) if isinstance(x, ast.If) and norm(x.test) == "type_num == OFS_DELTA"]
+        ok = bool(br) and any(callee_name(c) == "_decode_delta_base_offset" for s in br[0].body for c in ast.walk(s) if isinstance(c, ast.Call)) \
+            and any(callee_name(c) in ("take_msb_bytes", "take_msb_bytes_at") for s in br[0].body for c in ast.walk(s) if isinstance(c, ast.Call)) \
+            and "_decode_object_header(raw)" in src
+        ref = [x for x in ast.walk(f.node) if isinstance(x, ast.If) and norm(x.test) == "type_num == REF_DELTA"]
+        ok_ref = bool(ref) and ("hash_size" in norm(ref[0], 2000))
+        rep.ob("R02.4", PACK, f.qual, "OFS_DELTA reads a second msb-terminated group and decodes it with the offset codec; REF_DELTA reads hash_size bytes",
+               ok and ok_ref, "", f.node.lineno)
+    # offset varint: canonical features of git's varint.c offset encoding
+    d = fn("_decode_delta_base_offset")
+    acc_shift = any(isinstance(x, ast.AugAssign) and isinstance(x.op, ast.LShift) and F.try_fold(x.value) == 7 for x in ast.walk(d.node))
+    bias = any(isinstance(x, ast.AugAssign) and isinstance(x.op, ast.Add) and F.try_fold(x.value) == 1 for x in ast.walk(d.node))
+    order_ok = False
+    for lp in [x for x in ast.walk(d.node) if isinstance(x, ast.For)]:
+        kinds = []
+        for s in lp.body:
+            if isinstance(s, ast.AugAssign):
+                kinds.append("bias" if isinstance(s.op, ast.Add) and F.try_fold(s.value) == 1 else "shift" if isinstance(s.op, ast.LShift) else
+                             "add" if isinstance(s.op, ast.Add) and "& 127" in norm(s.value).replace("0x7F", "127").replace("0x7f", "127") else "?")
+        order_ok = kinds == ["bias", "shift", "add"]
+    dmask = sorted(F.try_fold(x.right) for x in _binops(d.node, ast.BitAnd))
+    rep.ob("R02.4", PACK, d.qual, "offset decoder: acc = b0 & 0x7F; per byte: acc += 1; acc <<= 7; acc += b & 0x7F (git's offset varint)",
+           acc_shift and bias and order_ok and dmask == [127, 127, 128], f"shift7 {acc_shift} bias {bias} order {order_ok} masks {dmask}", d.node.lineno)
+    zero = any(isinstance(x, ast.If) and norm(x.test) in ("delta_base_offset == 0", "not delta_base_offset", "delta_base_offset <= 0")
+               and any(isinstance(y, ast.Raise) for y in x.body) for x in ast.walk(d.node))
+    rep.ob("R02.4", PACK, d.qual, "an OFS_DELTA whose offset is 0 (its own base) is refused", zero, "", d.node.lineno)
+    ofs = [s for s in w.node.body if isinstance(s, ast.If) and "OFS_DELTA" in norm(s.test)]
+    ok = False
+    det = "no OFS_DELTA branch"
+    if ofs:
+        b = ofs[0]
+        e_first = any(isinstance(x, ast.Assign) and isinstance(x.value, ast.List) and len(x.value.elts) == 1 and "& 127" in norm(x.value.elts[0]).replace("0x7F", "127") for x in b.body)
+        wl = [x for x in b.body if isinstance(x, ast.While)]
+        seq = []
+        if wl:
+            for s in wl[0].body:
+                if isinstance(s, ast.AugAssign) and isinstance(s.op, ast.Sub) and F.try_fold(s.value) == 1:
+                    seq.append("bias")
+                elif isinstance(s, ast.AugAssign) and isinstance(s.op, ast.RShift) and F.try_fold(s.value) == 7:
+                    seq.append("shift")
+                elif isinstance(s, ast.Expr) and isinstance(s.value, ast.Call) and callee_name(s.value) == "insert" and F.try_fold(s.value.args[0]) == 0:
+                    a = norm(s.value.args[1]).replace("0x7F", "127").replace("0x80", "128")
+                    seq.append("prepend" if "128 |" in a and "& 127" in a else "prepend?")
+                else:
+                    seq.append("?")
+        pre_shift = any(isinstance(x, ast.AugAssign) and isinstance(x.op, ast.RShift) and F.try_fold(x.value) == 7 for x in b.body)
+        ok = e_first and seq == ["bias", "prepend", "shift"] and pre_shift and bool(wl) and norm(wl[0].test) == "delta_base"
+        det = f"first group {e_first}, loop {seq}, initial shift {pre_shift}"
+    rep.ob("R02.4", PACK, w.qual, "offset encoder: low 7 bits last; while rest: rest -= 1; prepend 0x80 | rest & 0x7F; rest >>= 7 (inverse of the decoder)", ok, det, w.node.lineno)
+
+
+def r02_5(prog, rep, m, F, fn):
+    rep.rule("R02.5", "SIBLINGS-AGREE: OFS_DELTA base = own offset - delta at every reader; writer stores own offset - base offset for an already written base")
+    g = fn("PackChunkGenerator._pack_data_chunks")
+    node = g.node
+    tries = [t for t in ast.walk(node) if isinstance(t, ast.Try) and any("self.entries[" in norm(s) for s in t.body)]
+    ok = False
+    det = "no lookup of the base in self.entries"
+    if tries:
+        t = tries[0]
+        look = [s for s in t.body if isinstance(s, ast.Assign) and "self.entries[unpacked.delta_base]" in norm(s.value)]
+        base_var = look[0].targets[0].elts[0].id if look and isinstance(look[0].targets[0], ast.Tuple) else None
+        h_ref = any(isinstance(h.type, ast.Name) and h.type.id == "KeyError" and any(isinstance(s, ast.Assign) and norm(s) == "type_num = REF_DELTA" for s in h.body)
+                    and not any("OFS_DELTA" in norm(s) for s in h.body) for h in t.handlers)
+        e_ofs = any(norm(s) == "type_num = OFS_DELTA" for s in t.orelse)
+        raws = [s for s in t.orelse if isinstance(s, ast.Assign) and norm(s.targets[0]) == "raw"]
+        dist = raws and isinstance(raws[0].value, ast.Tuple) and norm(raws[0].value.elts[0]) == f"offset - {base_var}"
+        only = [x for x in ast.walk(node) if isinstance(x, ast.Assign) and norm(x) == "type_num = OFS_DELTA"]
+        ok = bool(look) and h_ref and e_ofs and bool(dist) and len(only) == 1
+        det = f"lookup {bool(look)}, KeyError->REF_DELTA {h_ref}, else->OFS_DELTA {e_ofs}, distance offset - {base_var}: {bool(dist)}, OFS assignments {len(only)}"
+    rep.ob("R02.5", PACK, g.qual, "OFS_DELTA is chosen only when the base is already in self.entries, with distance `offset - base_offset`; otherwise REF_DELTA", ok, det, node.lineno)
+    # entries recorded before the offset advances, inside the record loop
+    loop = [lp for lp in ast.walk(node) if isinstance(lp, ast.For) and norm(lp.iter) in ("enumerate(records)", "records")]
+    ok = False
+    det = "record loop not found"
+    if loop:
+        body = loop[0].body
+        idx_store = [i for i, s in enumerate(body) if isinstance(s, ast.Assign) and norm(s.targets[0]).startswith("self.entries[") and norm(s.value) == "(offset, crc32)"]
+        idx_adv = [i for i, s in enumerate(body) if isinstance(s, ast.AugAssign) and norm(s.target) == "offset"]
+        adv_ok = len(idx_adv) == 1 and isinstance(body[idx_adv[0]].op, ast.Add) and norm(body[idx_adv[0]].value) == "object_size"
+        ok = len(idx_store) == 1 and adv_ok and idx_store[0] < idx_adv[0] and "unpacked.sha()" in norm(body[idx_store[0]].targets[0])
+        det = f"store at stmt {idx_store}, advance at stmt {idx_adv} ({adv_ok})"
+    rep.ob("R02.5", PACK, g.qual, "entries[unpacked.sha()] = (offset, crc32) is recorded with the object's start offset, then offset += object_size", ok, det, node.lineno)
+    # every yield in the function is accounted: crc32 (inside the object loop), cs.update, offset/object_size
+    ys = [y for y in ast.walk(node) if isinstance(y, ast.Yield)]
+    bad = []
+    for y in ys:
+        st = m.enclosing_stmt(y)
+        par = m.parents.get(st)
+        sibs = getattr(par, "body", [])
+        if st not in sibs:
+            sibs = getattr(par, "orelse", []) if st in getattr(par, "orelse", []) else sibs
+        v = norm(y.value) if y.value is not None else ""
+        blk = [norm(s) for s in sibs]
+        upd = any(f"self.cs.update({v})" in b for b in blk)
+        ln = any(b in (f"offset += len({v})", f"object_size += len({v})") for b in blk)
+        if "digest" in v:
+            continue
+        if not v or not upd:
+            bad.append(f"line {y.lineno}: yield {v} without self.cs.update")
+        elif not ln:
+            bad.append(f"line {y.lineno}: yield {v} not counted in the offset")
+    crc = [lp for lp in ast.walk(node) if isinstance(lp, ast.For) and norm(lp.iter) == "chunks"]
+    crc_ok = bool(crc) and any(norm(s) == "crc32 = binascii.crc32(chunk, crc32)" for s in crc[0].body) \
+        and any(isinstance(s, ast.Assign) and norm(s) == "crc32 = 0" for s in (loop[0].body if loop else []))
+    rep.ob("R02.5", PACK, g.qual, "every yielded chunk is fed to the trailer digest and counted in the offset; object chunks also enter a crc32 reset per object",
+           not bad and crc_ok and len(ys) >= 3, "; ".join(bad) or f"crc loop ok {crc_ok}, yields {len(ys)}", node.lineno)
+    # readers
+    n_sites = 0
+    for q, f in sorted(m.funcs.items()):
+        if q in ("pack_object_header", "unpack_object", "unpack_object_at", g.qual) or ".<locals>." in q:
+            continue
+        for br in [x for x in ast.walk(f.node) if isinstance(x, ast.If) and "== OFS_DELTA" in norm(x.test) and m.enclosing_func(x) is f]:
+            ar = [x for s in br.body for x in ast.walk(s) if isinstance(x, ast.BinOp) and isinstance(x.op, (ast.Add, ast.Sub))
+                  and any(k in norm(x.right) or k in norm(x.left) for k in ("delta_base", "delta_offset"))]
+            if not ar:
+                continue
+            n_sites += 1
+            for x in ar:
+                good = isinstance(x.op, ast.Sub) and any(k in norm(x.right) for k in ("delta_base", "delta_offset")) and "offset" in norm(x.left) \
+                    and not any(k in norm(x.left) for k in ("delta_base", "delta_offset"))
+                rep.ob("R02.5", PACK, q, f"OFS_DELTA base computed as own offset minus the stored distance: `{norm(x, 60)}`", good,
+                       "the writer stores `offset - base_offset`; any other combination resolves the delta against a different object", x.lineno)
+    if n_sites < 4:
+        raise AnalysisError(f"expected >= 4 OFS_DELTA base computations, found {n_sites}")
